@@ -199,3 +199,40 @@ func (s EffectSite) witnessPath(pred func(Fact) bool) []string {
 	}
 	return pathAvoiding(e.Fn.Blocks[0], s.In.Block(), cut)
 }
+
+// CutInAllContexts: the instruction is guarded (by a fact accepted by mk(env)) in its own function, or — when that
+// function is an unexported helper — in every calling context (recursively, depth <= 3).
+func (p *Prog) CutInAllContexts(fn *ssa.Function, at ssa.Instruction, mk func(e *Env) func(Fact) bool) (string, bool, string) {
+	return p.cutInCtx(p.Env(fn), at, mk, 0)
+}
+
+func (p *Prog) cutInCtx(e *Env, at ssa.Instruction, mk func(e *Env) func(Fact) bool, depth int) (string, bool, string) {
+	s := EffectSite{Env: e, In: at}
+	if fs, where, ok := s.CutInContext(mk(e), nil); ok {
+		return "cut in " + where + " by " + fs[0].String(), true, ""
+	}
+	top := e
+	for top.Parent != nil {
+		top = top.Parent
+	}
+	if depth >= 3 || isExportedAPI(top.Fn) || len(p.Callers[top.Fn]) == 0 {
+		return "", false, s.Chain()
+	}
+	var bys []string
+	n := 0
+	for _, cs := range p.Callers[top.Fn] {
+		if !p.Src(cs.Parent()) {
+			continue
+		}
+		n++
+		by, ok, ctx := p.cutInCtx(rebuildChain(p, e, cs), at, mk, depth+1)
+		if !ok {
+			return "", false, ctx
+		}
+		bys = append(bys, by)
+	}
+	if n == 0 {
+		return "", false, s.Chain()
+	}
+	return "in every calling context: " + strings.Join(uniq(bys), " | "), true, ""
+}
